@@ -63,7 +63,7 @@ def main():
     chk.tv(groups(500 if chk.thorough else 40, chk.seed), "C08 twins")
     chk.assumptions += ["virtual clock: one unit tick per read, so `time_limit = j` expires exactly at a chosen read",
                         "the problem callbacks are deterministic functions of their arguments"]
-    chk.replay_behaviours(num=200 if not chk.thorough else 1600)
+    chk.replay_behaviours(num=500 if not chk.thorough else 6000)
     return chk.finish(rule="self-composition MC (reference run A, limited run B, shared oracle) over every limit and every deadline "
                            "position incl. reads inside the Newton loop; TV of real tuples (A unlimited, B/C/D limited) with shared "
                            "interning: equal trial queries must give bit-identical answers")
